@@ -189,3 +189,113 @@ Theorem C04_example_no_events :
   rmap core (run e [F ex_charged; F ex_big; ADD b]) = Ok ([[11; 12]; [13]], A2 [(1, 2); (2, 1)], 2).
 Proof. exact example_no_events. Qed.
 Print Assumptions C04_example_no_events.
+
+(* ------------------------------------------------------------------------------------------------
+   Tie to the source.  Gen/GenStorer.v is regenerated on every run by tools/py2coq/gen_storer.py from the
+   CURRENT text of BaseStorer.py / Oscar.py / Jetscape.py / ParticleObjectStorer.py: each method body is
+   translated statement by statement into a function over Python values [pv] (Model/StorerRt.v: the
+   Python/numpy fragment these methods are written in; [VObj s] is a storer object with state s).  The
+   theorems below state that the hand model of Model/Storer.v - which all theorems above are about -
+   computes exactly what the translated source computes, for every state (inside or outside the
+   invariant) and every outcome including the exception class. *)
+From Coq Require Import String.
+From SX Require Import Model.StorerRt Gen.GenStorer Proofs.C04_Source.
+
+(* BaseStorer._update_num_output_per_event_after_filter *)
+Theorem C04_source_recount : forall s,
+  gen_update_after_filter (VObj s) = rmap VObj (update_after_filter s).
+Proof. exact source_update_after_filter. Qed.
+Print Assumptions C04_source_recount.
+
+(* every filter wrapper of BaseStorer and of the subclasses (the translator checks that they all translate to
+   the one term gen_filter_method); g = the Filter.py function with the method's arguments *)
+Theorem C04_source_filter_method : forall s o,
+  gen_filter_method (gfun o) (VObj s) = rmap VObj (apply_filter s o).
+Proof. exact source_filter_method. Qed.
+Print Assumptions C04_source_filter_method.
+
+(* BaseStorer.particle_list; plres_pv shows the model's result as Python does (a flat and a nested empty
+   list are both []) *)
+Theorem C04_source_particle_list : forall s,
+  gen_particle_list (VObj s) = rmap plres_pv (particle_list s).
+Proof. exact source_particle_list. Qed.
+Print Assumptions C04_source_particle_list.
+
+(* num_events(), num_output_per_event(), particle_objects_list() return the attributes unchanged *)
+Theorem C04_source_accessors : forall s,
+  gen_num_events (VObj s) = Ok (VInt (nevents s)) /\
+  gen_num_output_per_event (VObj s) = Ok (VArr (counts s)) /\
+  gen_particle_objects_list (VObj s) = Ok (VEvs (events s)).
+Proof. exact source_accessors. Qed.
+Print Assumptions C04_source_accessors.
+
+(* _update_after_merge of the three classes, dispatched on the class of the left operand (called by __add__
+   after the class check, hence the hypothesis) *)
+Theorem C04_source_update_after_merge : forall a b, scls a = scls b ->
+  gen_update_after_merge (VObj a) (VObj b)
+  = rmap (fun x => VObj (set_xsigma (set_xend a (fst x)) (snd x))) (update_after_merge a b).
+Proof. exact source_update_after_merge. Qed.
+Print Assumptions C04_source_update_after_merge.
+
+(* BaseStorer.__add__, for any two storer objects *)
+Theorem C04_source_add : forall a b, gen_add (VObj a) (VObj b) = rmap VObj (add a b).
+Proof. exact source_add. Qed.
+Print Assumptions C04_source_add.
+
+(* __add__ assigns these attributes (sorted by name) on the sum, each from an object built by __add__ itself (a + b, a call) and
+   not from an object an operand holds *)
+Theorem C04_source_add_assigned :
+  gen_add_assigned = [("loader_", true); ("num_events_", true); ("num_output_per_event_", true); ("particle_list_", true)]%string.
+Proof. exact source_add_assigned. Qed.
+Print Assumptions C04_source_add_assigned.
+
+(* ParticleObjectStorer.__init__: the recount after BaseStorer.__init__, and with it the model's load_pobj *)
+Theorem C04_source_pobj_init : forall first s,
+  gen_pobj_init_recount (VInt first) (VObj s)
+  = Ok (VObj (set_counts (set_nevents s (zlen (events s))) (A2 (recount first (events s))))).
+Proof. exact source_pobj_init. Qed.
+Print Assumptions C04_source_pobj_init.
+
+Theorem C04_source_load_pobj : forall evs sel filt st,
+  load_pobj evs sel filt = Ok st ->
+  exists first l n c, pobj_loader evs sel filt = Ok (first, l, n, c) /\
+    gen_pobj_init_recount (VInt first) (VObj (mkS CPobj l c n [] 0 0 0%Q)) = Ok (VObj st).
+Proof. exact source_load_pobj. Qed.
+Print Assumptions C04_source_load_pobj.
+
+(* BaseStorer.__init__ stores the loader's tuple in this order, and every loader returns it in this order *)
+Theorem C04_source_handover :
+  gen_handover_targets = ["particle_list_"; "num_events_"; "num_output_per_event_"; "custom_attr_list"]%string /\
+  map (fun r => (fst r, firstn 3 (snd r))) gen_loader_returns
+  = [("Oscar", ["self.set_particle_list(kwargs)"; "self.num_events_"; "self.num_output_per_event_"]);
+     ("Jetscape", ["self.set_particle_list(kwargs)"; "self.num_events_"; "self.num_output_per_event_"]);
+     ("PObj", ["self.set_particle_list(kwargs)"; "self.num_events_"; "self.num_output_per_event_"])]%string.
+Proof. exact source_handover. Qed.
+Print Assumptions C04_source_handover.
+
+(* histories run on the translated methods are the model's histories ... *)
+Theorem C04_source_run : forall s ops, src_run (VObj s) ops = rmap VObj (run s ops).
+Proof. exact source_run. Qed.
+Print Assumptions C04_source_run.
+
+(* ... so the property theorems hold of the translated source: any history of admissible operations run on
+   the translated methods ends, without an exception, in an object that satisfies the invariant and holds
+   what the same operations give on the plain nested list *)
+Theorem C04_source_history : forall s0 ops,
+  Inv s0 -> Forall (adm_op s0) ops ->
+  exists s, src_run (VObj s0) ops = Ok (VObj s) /\ Inv s /\ held s = run_spec (held s0) ops.
+Proof. exact source_history. Qed.
+Print Assumptions C04_source_history.
+
+(* non-vacuity: the translated methods run on concrete objects *)
+Theorem C04_source_example :
+  gen_add (VObj ex_j1) (VObj ex_j2)
+  = Ok (VObj (mkS CJetscape [[1; 2]; [3; 4]; [5]] (A2 [(1, 2); (2, 2); (3, 1)]) 3 [] 0 0 (3 # 8)%Q)) /\
+  gen_particle_list (VObj ex_j1) = Ok (VRows [1; 2]) /\
+  gen_particle_list (VObj ex_j2) = Ok (VRowss [[3; 4]; [5]]) /\
+  gen_filter_method (map (filter Z.even)) (VObj ex_j2)
+  = Ok (VObj (mkS CJetscape [[4]; []] (A2 [(7, 1); (8, 0)]) 2 [] 0 0 (1 # 4)%Q)) /\
+  gen_filter_method (fun l => norm (filter (fun _ => false) l)) (VObj ex_j2)
+  = Ok (VObj (mkS CJetscape [[]] (A2 [(7, 0)]) 1 [] 0 0 (1 # 4)%Q)).
+Proof. exact source_example. Qed.
+Print Assumptions C04_source_example.
